@@ -77,7 +77,7 @@ def cellText (c : Cell) : String :=
 
 def parseCell (s : String) : Option Cell := (parseTable s).bind Table.root
 
-def parseVal (vt : VT) (s : String) : Option Val :=
+private def parseVal (vt : VT) (s : String) : Option Val :=
   match vt with
   | .u32 => s.toNat?.map fun n => (Bits.natToBits 32 n, [])
   | .b256 => (hexArg s).bind fun bs => if bs.length = 32 then some (Bits.bytesToBits bs, []) else none
@@ -108,7 +108,7 @@ def refCodec : Codec Val where
       else if r.ty = tyLibrary then .err "library cell decoding is not configured properly"
       else .ok (r.bits, r.refs)
 
-def codecOf : VT → Codec Val
+private def codecOf : VT → Codec Val
   | .u32 => fixedCodec 32
   | .b256 => fixedCodec 256
   | .p => payloadCodec
